@@ -462,6 +462,22 @@ def canon_case(G, part, **kw):
     return {"G": G, "part": part, **kw}
 
 
+def judge_merge(ctx, case, im):
+    """oracle for one merge() case: content(result) = content(global mesh)"""
+    G, part, dim = case["G"], case["part"], case["dim"]
+    nf = nofresh_pieces(part)
+    diff = oracle_diff(G, im, dim)
+    if diff is not None:
+        if lost_cells_are_nofresh(G, part, im, dim):
+            what = WHAT["F-C06a-merge"]
+        elif "error" in diff:
+            what = f"merge() raised {diff['error'][:80]}"
+        else:
+            what = "merge(): content of the result differs from the unpartitioned mesh: " + ", ".join(k_ for k_ in diff if not k_.startswith("missing_"))
+        ctx.violation("E4", what, case, impl=im, difference=diff, pieces_without_new_points=nf)
+    return diff is None
+
+
 def stream_merge(ctx, n):
     rng = ctx.rng
     cases = []
@@ -487,15 +503,7 @@ def stream_merge(ctx, n):
         ctx.count("merge:piece-without-new-point:" + ("yes" if nf else "no"))
         ctx.count(f"merge:space-dim={dim}")
         mo = decode_model(val, G)
-        diff = oracle_diff(G, im, dim)
-        if diff is not None:
-            if lost_cells_are_nofresh(G, part, im, dim):
-                what = WHAT["F-C06a-merge"]
-            elif "error" in diff:
-                what = f"merge() raised {diff['error'][:80]}"
-            else:
-                what = "merge(): content of the result differs from the unpartitioned mesh: " + ", ".join(k_ for k_ in diff if not k_.startswith("missing_"))
-            ctx.violation("E4", what, case, impl=im, difference=diff, pieces_without_new_points=nf)
+        judge_merge(ctx, case, im)
         d2 = model_vs_impl(mo, im)
         if d2 is not None:
             ctx.violation("E2", f"merge(): model != implementation ({d2})", case, found_input=False, impl=im, model=mo)
@@ -699,6 +707,40 @@ Definition sm_idx (dec : list (list nat)) (is_point : bool) : list (list nat) :=
 """
 
 
+def judge_smerge(ctx, case, merger=None, restr=None):
+    """consistent pieces (restrictions of a global field): the merged field must be the global field, numeric type included"""
+    from fieldcompare.mesh import StructuredFieldMerger
+    dec = tuple(tuple(a) for a in case["dec"])
+    is_point, ncomp = case["is_point"], case["ncomp"]
+    dtype = np.dtype(case["dtype"]).type
+    merger = merger or StructuredFieldMerger(dec)
+    if restr is None:
+        restr = {tuple(l): piece_restriction(dec, l, is_point) for l in locations([len(a) for a in dec])}
+    N = int(np.prod([sum(a) + (1 if is_point else 0) for a in dec]))
+    glob = np.arange(1, N + 1, dtype=dtype) * (2 if dtype is np.int32 else 0.5)
+    if ncomp > 1:
+        glob = np.stack([glob + j for j in range(ncomp)], axis=1)
+    cb = lambda loc, g=glob: g[restr[tuple(loc)]]          # noqa: E731
+    try:
+        got = merger.merge_point_fields(cb) if is_point else merger.merge_cell_fields(cb)
+    except Exception as e:          # noqa: BLE001
+        ctx.violation("E4", f"StructuredFieldMerger raised {type(e).__name__}: {str(e)[:60]}", case)
+        return False
+    ok = True
+    if got.shape != glob.shape or not np.array_equal(got, glob):
+        ctx.violation("E4", "StructuredFieldMerger: merging the restrictions of a global field does not give the global field",
+                      case, impl=np.asarray(got).tolist(), statement=glob.tolist())
+        ok = False
+    elif got.dtype != glob.dtype:
+        ctx.violation("E4", WHAT["F-C06b-merger"], case, impl_dtype=got.dtype.name, statement_dtype=glob.dtype.name)
+        ok = False
+    want_dt = glob.dtype.name if REPAIRED["F-C06b"] else "float64"
+    if got.dtype.name != want_dt:
+        ctx.violation("E2", f"StructuredFieldMerger: model dtype {want_dt} != implementation dtype {got.dtype.name}", case,
+                      found_input=False)
+    return ok
+
+
 def stream_smerge(ctx, maxext):
     from fieldcompare.mesh import StructuredFieldMerger
     rng = ctx.rng
@@ -717,32 +759,12 @@ def stream_smerge(ctx, maxext):
             restr = {tuple(l): piece_restriction(dec, l, is_point) for l in plocs}
             # (a) consistent pieces: restrictions of a global field; all dtype / shape variants; oracle = the global field
             for dtype, ncomp in ((np.float64, 1), (np.int32, 1), (np.float64, 3), (np.int32, 2)):
-                glob = np.arange(1, N + 1, dtype=dtype) * (2 if dtype is np.int32 else 0.5)
-                if ncomp > 1:
-                    glob = np.stack([glob + j for j in range(ncomp)], axis=1)
-                cb = lambda loc, g=glob: g[restr[tuple(loc)]]          # noqa: E731
-                try:
-                    got = merger.merge_point_fields(cb) if is_point else merger.merge_cell_fields(cb)
-                    err = None
-                except Exception as e:          # noqa: BLE001
-                    got, err = None, f"{type(e).__name__}: {e}"
                 case = {"stream": "smerge", "dec": [list(a) for a in dec], "is_point": is_point, "dtype": np.dtype(dtype).name, "ncomp": ncomp}
                 ctx.case(case, len(plocs) >= 2, sample=case if rng.random() < 0.001 else None)
                 ctx.count(f"smerge:dim={len(dec)}")
                 ctx.count(f"smerge:pieces={min(len(plocs), 9)}{'+' if len(plocs) > 9 else ''}")
                 ctx.count(f"smerge:{'point' if is_point else 'cell'}:{np.dtype(dtype).name}:ncomp={ncomp}")
-                if err is not None:
-                    ctx.violation("E4", f"StructuredFieldMerger raised {err[:80]}", case)
-                    continue
-                if got.shape != glob.shape or not np.array_equal(got, glob):
-                    ctx.violation("E4", "StructuredFieldMerger: merging the restrictions of a global field does not give the global field",
-                                  case, impl=np.asarray(got).tolist(), statement=glob.tolist())
-                elif got.dtype != glob.dtype:
-                    ctx.violation("E4", WHAT["F-C06b-merger"], case, impl_dtype=got.dtype.name, statement_dtype=glob.dtype.name)
-                want_dt = glob.dtype.name if REPAIRED["F-C06b"] else "float64"
-                if got.dtype.name != want_dt:
-                    ctx.violation("E2", f"StructuredFieldMerger: model dtype {want_dt} != implementation dtype {got.dtype.name}", case,
-                                  found_input=False)
+                judge_smerge(ctx, case, merger, restr)
             # (b) arbitrary piece fields (distinct values, NOT consistent on shared points): which piece wins is the model's business
             fs, base = [], 1
             for l in plocs:
@@ -989,6 +1011,35 @@ Definition ps_field (exts : list (list Z)) (is_point : bool) (fs : list (list na
 """
 
 
+def judge_pstruct(ctx, case, out):
+    c = case
+    truth = truth_struct(c)
+    dw = diff_struct(truth, out["whole"])
+    dp = diff_struct(truth, out["parallel"])
+    if dw is not None and set(dw) - {"dtypes"}:
+        ctx.count("pstruct:whole-file-not-ground-truth")
+        ctx.notes.append(f"whole .{c['kind']} does not read as the ground truth (C07's business): {str(dw)[:100]}")
+        return True
+    if dp is None:
+        return True
+    has_cf = any(not f[0].startswith("p") for f in c["fields"])
+    if set(dp) == {"dtypes"}:
+        what = WHAT["F-C06b-file"]
+    elif not has_cf and dp.get("error", "").startswith("AssertionError"):
+        what = WHAT["F-C06d-nocelldata"]
+    elif c["kind"] == "vtr" and set(dp) <= {"dtypes", "points"} and "points" in dp and flat_coordinate_lost(c, truth, out["parallel"]):
+        what = WHAT["F-C06e-pvtr-flat"]
+    elif (c["kind"] == "vtr" and c["axes"] != list(range(len(c["axes"]))) and set(dp) <= {"dtypes", "points", "error"}
+          and ("points" in dp or "broadcast" in dp.get("error", ""))):
+        what = WHAT["F-C06c-pvtr"]
+    elif "error" in dp:
+        what = f".p{c['kind']}: reading the parallel file raised {dp['error'][:80]}"
+    else:
+        what = f".p{c['kind']}: data read from the parallel file differs from the whole grid: " + ", ".join(sorted(dp))
+    ctx.violation("E4", what, case, difference=dp, impl=out["parallel"] if "error" in out["parallel"] else None)
+    return False
+
+
 def stream_pstruct(ctx, n_cases, maxext):
     rng = ctx.rng
     decs = [d for d in all_decompositions(maxext) if int(np.prod([len(a) for a in d])) >= 2]
@@ -1009,28 +1060,7 @@ def stream_pstruct(ctx, n_cases, maxext):
         ctx.count(f"pstruct:dim={len(c['dec'])}")
         ctx.count(f"pstruct:pieces={len(order)}")
         ctx.count("pstruct:order:" + ("identity" if order == sorted(order) else "permuted"))
-        truth = truth_struct(c)
-        dw = diff_struct(truth, out["whole"])
-        dp = diff_struct(truth, out["parallel"])
-        if dw is not None and set(dw) - {"dtypes"}:
-            ctx.count("pstruct:whole-file-not-ground-truth")
-            ctx.notes.append(f"whole .{c['kind']} does not read as the ground truth (C07's business): {str(dw)[:100]}")
-        elif dp is not None:
-            has_cf = any(not f[0].startswith("p") for f in c["fields"])
-            if set(dp) == {"dtypes"}:
-                what = WHAT["F-C06b-file"]
-            elif not has_cf and dp.get("error", "").startswith("AssertionError"):
-                what = WHAT["F-C06d-nocelldata"]
-            elif c["kind"] == "vtr" and set(dp) <= {"dtypes", "points"} and "points" in dp and flat_coordinate_lost(c, truth, out["parallel"]):
-                what = WHAT["F-C06e-pvtr-flat"]
-            elif (c["kind"] == "vtr" and c["axes"] != list(range(len(c["axes"]))) and set(dp) <= {"dtypes", "points", "error"}
-                  and ("points" in dp or "broadcast" in dp.get("error", ""))):
-                what = WHAT["F-C06c-pvtr"]
-            elif "error" in dp:
-                what = f".p{c['kind']}: reading the parallel file raised {dp['error'][:80]}"
-            else:
-                what = f".p{c['kind']}: data read from the parallel file differs from the whole grid: " + ", ".join(sorted(dp))
-            ctx.violation("E4", what, case, difference=dp, impl=out["parallel"] if "error" in out["parallel"] else None)
+        judge_pstruct(ctx, case, out)
         subs = piece_extents(c)
         listed = [subs[i] for i in order]
         cexts = clist([clist([cz(x) for x in s], "Z") for s in listed], "(list Z)")
@@ -1169,15 +1199,41 @@ def refinement_ties(ctx, n):
 
 
 # ================================================================================================
+def corpus_stream(ctx):
+    """minimised past failures (corpus/C06/*.json), always first: the oracle is re-evaluated on each of them"""
+    import glob
+    import json
+    for k, fn in enumerate(sorted(glob.glob(str(lib.VERIF / "corpus" / "C06" / "*.json")))):
+        case = json.load(open(fn)).get("case") or {}
+        st = case.get("stream")
+        d = os.path.join(str(ctx.workdir), f"corpus{k}")
+        if st == "merge":
+            judge_merge(ctx, case, run_merge(case["G"], case["part"], case["dim"]))
+        elif st in ("pvtu", "pvtp"):
+            out = run_pfile(case["G"], case["part"], d, case["cfg"], st == "pvtp")
+            check_pfile(ctx, case["G"], case["part"], case["cfg"], st == "pvtp", out, case)
+        elif st == "smerge":
+            judge_smerge(ctx, case)
+        elif st == "pstruct":
+            judge_pstruct(ctx, case, run_pstruct(case, case["order"], d))
+        else:
+            continue
+        ctx.case({"corpus": os.path.basename(fn)}, True)
+        ctx.count("corpus cases")
+
+
 def run(ctx):
     ctx.prove()
     quick = ctx.tier == "quick"
+    corpus_stream(ctx)
     stream_merge(ctx, 800 if quick else 30000)
     stream_pfiles(ctx, 150 if quick else 3000, 50 if quick else 1000)
     refinement_ties(ctx, 300 if quick else 5000)
     stream_smerge(ctx, 3 if quick else 4)
     stream_pstruct(ctx, 40 if quick else 1200, 3 if quick else 4)
     ctx.extra["model_variant"] = {k: ("repaired" if v else "pinned") for k, v in REPAIRED.items()}
+    import json
+    ctx.violations.sort(key=lambda v: len(json.dumps(v.get("case"), default=str)))      # the smallest failing case of each kind is the replay
     ctx.rule = ("unstructured: hybrid tri/quad, hexahedral, tetrahedral and line meshes (1-18 cells) with shuffled global numbering, exact dyadic "
                 "coordinates (ties in the leading coordinates), 1-2 point and 1-2 cell fields of types float64/float32/int32/int64/uint8 with 1-3 "
                 "components; partitions: contiguous, scattered, one cell per piece, k = 1, pieces all of whose points belong to earlier pieces; "
